@@ -5,7 +5,7 @@ No program path is explored beyond straight-line evaluation with a caller-
 supplied set of branch facts; anything outside the fragment raises
 AnalysisError (never a pass).
 """
-import ast, math
+import ast, re, math
 import sympy as sp
 from .report import AnalysisError
 from . import pyfacts as pf
@@ -496,6 +496,8 @@ class CInterp:
         elif k == "ReturnStmt":
             v = self.expr(st["inner"][0], env) if st.get("inner") else None
             raise CInterp.Return(v)
+        elif k == "ForStmt" and getattr(self, "sum_loops", False) and self._sum_loop(st, env):
+            pass
         elif k in ("ForStmt", "WhileStmt") and self.opaque_loops:
             self._havoc(st, env)
         elif k == "DoStmt":
@@ -556,6 +558,78 @@ class CInterp:
             self.expr(st, env)
         else:
             raise AnalysisError("nf: C statement outside the fragment: %s" % k)
+
+    def _sum_loop(self, st, env):
+        """Summation loops `for (int j = 0; j < N; j++) { ...; acc += term; }`: the body is interpreted once with j symbolic and
+        every accumulator as an input symbol; a term `W[j] * g` with g free of j sums to g * sum_W (a symbol named after the
+        table, the bound being the loop's), a term free of j to N * term.  Returns False when the loop is not of that shape
+        (the caller then falls back to havoc / refuses)."""
+        parts = st.get("inner", [])
+        if len(parts) < 5:
+            return False
+        init, cond, inc, body = parts[0], parts[2], parts[3], parts[4]
+        if not init or init.get("kind") != "DeclStmt":
+            return False
+        vd = [x for x in init.get("inner", []) if x.get("kind") == "VarDecl"]
+        if len(vd) != 1:
+            return False
+        jname = vd[0]["name"]
+        ini = [x for x in vd[0].get("inner", []) if isinstance(x, dict) and x.get("kind")]
+        if not ini or c_text(ini[0]).strip() != "0":
+            return False
+        ctxt = re.sub(r"\s+", "", c_text(cond)) if cond else ""
+        m = re.match(r"^%s<(\w+)$" % re.escape(jname), ctxt)
+        itxt = re.sub(r"\s+", "", c_text(inc)) if inc else ""
+        if not m or itxt not in (jname + "++", "++" + jname):
+            return False
+        bound = m.group(1)
+        # names assigned in the body that exist outside it
+        declared, assigned = set(), set()
+        stack = [body]
+        while stack:
+            n = stack.pop()
+            if not isinstance(n, dict):
+                continue
+            k = n.get("kind")
+            if k == "VarDecl":
+                declared.add(n.get("name"))
+            if (k == "BinaryOperator" and n.get("opcode") == "=") or k == "CompoundAssignOperator":
+                t = c_strip(n["inner"][0])
+                if t.get("kind") == "DeclRefExpr":
+                    assigned.add(t["referencedDecl"]["name"])
+                else:
+                    return False          # stores through pointers/arrays inside the loop: not a plain summation
+            if k in ("ForStmt", "WhileStmt", "DoStmt", "IfStmt", "ReturnStmt", "BreakStmt", "ContinueStmt"):
+                return False
+            stack.extend(n.get("inner", []) or [])
+        accs = sorted(assigned - declared)
+        J = sp.Symbol("loop_" + jname, integer=True)
+        sub = dict(env)
+        sub[jname] = J
+        ins = {}
+        for a in accs:
+            ins[a] = sp.Symbol("in_" + a, real=True)
+            sub[a] = ins[a]
+        try:
+            self.stmt(body, sub)
+        except CInterp.Return:
+            return False
+        Nsym = sym(bound) if bound not in env else env[bound]
+        for a in accs:
+            out = sp.expand(sub[a] - ins[a])
+            if any(i in out.free_symbols for i in ins.values()):
+                return False
+            total = 0
+            for add_ in sp.Add.make_args(out):
+                indep, dep = add_.as_independent(J, as_Add=False)
+                if dep == 1:
+                    total += Nsym * indep
+                elif getattr(getattr(dep, "func", None), "__name__", "") == "idx" and dep.args[1] == J:
+                    total += indep * sp.Symbol("sum_%s_%s" % (dep.args[0], bound), real=True)
+                else:
+                    return False
+            env[a] = (env[a] if a in env else sym(a)) + total
+        return True
 
     def call(self, name, args):
         fn = self.functions[name]
